@@ -78,6 +78,7 @@ func (w *zzvWorld) newCounter(f *file, name string) *Counter {
 // add is the body of a harness thread's increment.
 func (w *zzvWorld) add(c *Counter, n uint64) {
 	w.begun[c.name] += n
+	sched.MarkOp()
 	c.Add(int64(n))
 }
 
